@@ -40,8 +40,10 @@ character reference / named / numeric (decimal, hex) in data, RCDATA and attribu
 
 **Subset boundary** (`parse = none`; theorems have the form `parse (toHtml v) = some …`, so leaving
 the subset can only make a theorem fail):
-* every parse error of the standard except *incorrectly-opened-comment* (`<!>`, `<!x…>`), e.g.
-  U+0000 anywhere, `<` + non-letter in data, duplicate attribute, `"`/`'`/`<` in an attribute name,
+* every parse error of the standard except *incorrectly-opened-comment* (`<!>`, `<!x…>`) and
+  *invalid-first-character-of-tag-name* / *eof-before-tag-name* (`<` followed by something that cannot
+  start a tag, or by the end of input, is a `<` character: tachys prints `char` children raw), e.g.
+  U+0000 anywhere, `<?`, duplicate attribute, `"`/`'`/`<` in an attribute name,
   missing whitespace between attributes, `/>` on a non-void element, character reference without
   `;`, numeric reference to 0 / surrogate / > 10FFFF / control / noncharacter, `-->` variants that
   are errors, end tag that does not match the current node, EOF with open elements or inside a tag;
@@ -593,7 +595,8 @@ def step (σ : PState) (c : Char) : Option PState :=
     if c = '!' then some ⟨.markupDeclOpen, st⟩
     else if c = '/' then some ⟨.endTagOpen, st⟩
     else if isAlpha c then some ⟨.tagName [lower c], st⟩
-    else none
+    else if c = '?' then none
+    else flushThenText ['<'] st c     -- invalid-first-character-of-tag-name: the `<` is text
   | .endTagOpen => if isAlpha c then some ⟨.endTagName [lower c], st⟩ else none
   | .tagName t =>
     if isWs c then some ⟨.beforeAttrName ⟨t, []⟩, st⟩
@@ -697,6 +700,10 @@ def initState : PState := ⟨.text, [rootFrame]⟩
 /-- end of file: only in the data state with nothing open -/
 def finish : PState → Option (List Tree)
   | ⟨.text, [f]⟩ => if f.tag = [] then some f.kidsRev.reverse else none
+  | ⟨.tagOpen, [f]⟩ =>       -- eof-before-tag-name: the `<` is text
+    if f.tag = [] then some (pushCharKids '<' f.kidsRev).reverse else none
+  | ⟨.cref .start, [f]⟩ =>   -- `&` at the very end is text
+    if f.tag = [] then some (pushCharKids '&' f.kidsRev).reverse else none
   | _ => none
 
 /-- fragment parse (context: a `body`-like container, scripting enabled) -/
@@ -822,5 +829,159 @@ end
 
 /-- title text that RCDATA leaves alone: no `<`, no `&`, no NUL/CR -/
 def titleInert (t : Str) : Bool := t.all (fun c => c != cNul && c != cCr && c != '<' && c != '&')
+
+/-! ## Part 6 — typed children and child containers (view/{strings,primitives,iterators,tuples,either}.rs)
+
+`VNode` extends `Node` by the other `RenderHtml` implementors that can sit in a child position:
+* `text s`  — every string type: `&str`, `String`, `Arc<str>`, `Cow<str>`, `Oco<str>` (all delegate to
+              `<&str>::to_html_with_buf`), also behind a closure `move || s`;
+* `prim s`  — a primitive (`char`, integers, floats, `bool`, `IpAddr`, `NonZero*`, …), `s` its `Display`
+              text: view/primitives.rs writes it with `write!(buf, "{}", self)` — **never escaped**;
+* `seq ks`  — tuples, `[T; N]`, `StaticVec<T>`, `Fragment`: the items in sequence, position threaded;
+* `vec ks`  — `Vec<T>`: the items, then `<!>` and `Position::NextChild` when escaping;
+* `unit`    — `()` and `Option::None` (`Either::Right(())`): `<!>` when escaping.
+`Option::Some(v)`, `Either::{Left,Right}(v)`, `AnyView` print exactly `v` (no marker when
+`mark_branches = false`), so they have no constructor: the op decoders map them to `v`. -/
+
+inductive VNode where
+  | text (s : Str)
+  | prim (s : Str)
+  | elem (tag : Str) (attrs : List Attr) (kids : List VNode)
+  | seq (kids : List VNode)
+  | vec (kids : List VNode)
+  | unit
+  deriving Repr
+
+mutual
+/-- `position` after rendering the node -/
+def vPos (escape : Bool) (pos : Pos) : VNode → Pos
+  | .text _ => .afterText
+  | .prim _ => .afterText
+  | .elem .. => .nextChild
+  | .seq ks => vKidsPos escape pos ks
+  | .vec ks => if escape then .nextChild else vKidsPos escape pos ks
+  | .unit => if escape then .nextChild else pos
+def vKidsPos (escape : Bool) (pos : Pos) : List VNode → Pos
+  | [] => pos
+  | n :: ns => vKidsPos escape (vPos escape pos n) ns
+end
+
+def markerIf (b : Bool) : Str := if b then ['<', '!', '>'] else []
+
+mutual
+def vHtml (escape : Bool) (pos : Pos) : VNode → Str
+  | .text s => textHtml escape pos s
+  | .prim s => markerIf (pos = .afterText) ++ s
+  | .elem tag attrs kids =>
+    '<' :: tag ++ attrsHtml attrs ++ '>' ::
+      (if isVoid tag then []
+       else (if innerBuf attrs = [] then vKidsHtml (escapeChildren tag) .firstChild kids else innerBuf attrs)
+            ++ '<' :: '/' :: tag ++ ['>'])
+  | .seq ks => vKidsHtml escape pos ks
+  | .vec ks => vKidsHtml escape pos ks ++ markerIf escape
+  | .unit => markerIf escape
+def vKidsHtml (escape : Bool) (pos : Pos) : List VNode → Str
+  | [] => []
+  | n :: ns => vHtml escape pos n ++ vKidsHtml escape (vPos escape pos n) ns
+end
+
+/-- `RenderHtml::to_html` of a tuple of views -/
+def vToHtml (v : List VNode) : Str := vKidsHtml true .firstChild v
+
+mutual
+/-- the strings directly in a child list (through containers, not into elements), concatenated -/
+def vRawText : VNode → Str
+  | .text s => s
+  | .prim s => s
+  | .elem .. => []
+  | .seq ks => vRawTextKids ks
+  | .vec ks => vRawTextKids ks
+  | .unit => []
+def vRawTextKids : List VNode → Str
+  | [] => []
+  | n :: ns => vRawText n ++ vRawTextKids ns
+end
+
+mutual
+/-- is there a string-valued item directly in this child position (through containers)? -/
+def vHasText : VNode → Bool
+  | .text _ => true
+  | .prim _ => true
+  | .elem .. => false
+  | .seq ks => vHasTextKids ks
+  | .vec ks => vHasTextKids ks
+  | .unit => false
+def vHasTextKids : List VNode → Bool
+  | [] => false
+  | n :: ns => vHasText n || vHasTextKids ns
+end
+
+mutual
+/-- DOM nodes a view stands for (escaping context), cf. `structNode`; a `Vec` contributes its trailing
+marker comment, `()`/`None` a placeholder comment -/
+def vStruct (pos : Pos) : VNode → List Tree
+  | .text s =>
+    (if pos = .afterText then [.comment []] else []) ++ [.text (if s = [] then [' '] else s)]
+  | .prim s => (if pos = .afterText then [.comment []] else []) ++ textTree s
+  | .elem tag attrs kids =>
+    [.elem tag (expectedAttrs attrs)
+      (if isVoid tag then []
+       else if innerBuf attrs = [] then
+         (if escapeChildren tag then vStructKids .firstChild kids else textTree (vRawTextKids kids))
+       else (match parse (innerBuf attrs) with | some ts => ts | none => []))]
+  | .seq ks => vStructKids pos ks
+  | .vec ks => vStructKids pos ks ++ [.comment []]
+  | .unit => [.comment []]
+def vStructKids (pos : Pos) : List VNode → List Tree
+  | [] => []
+  | n :: ns => vStruct pos n ++ vStructKids (vPos true pos n) ns
+end
+
+def vStructureOf (v : List VNode) : List Tree := vStructKids .firstChild v
+
+mutual
+def Node.toV : Node → VNode
+  | .text s => .text s
+  | .elem tag attrs kids => .elem tag attrs (Node.toVs kids)
+def Node.toVs : List Node → List VNode
+  | [] => []
+  | n :: ns => Node.toV n :: Node.toVs ns
+end
+
+mutual
+/-- class `raw-text-child` (negated) -/
+def vRawTextFree : VNode → Bool
+  | .elem tag _ kids => (escapeChildren tag || !vHasTextKids kids) && vRawTextFreeKids kids
+  | .seq ks => vRawTextFreeKids ks
+  | .vec ks => vRawTextFreeKids ks
+  | _ => true
+def vRawTextFreeKids : List VNode → Bool
+  | [] => true
+  | n :: ns => vRawTextFree n && vRawTextFreeKids ns
+end
+
+mutual
+def vStrings : VNode → List Str
+  | .text s => [s]
+  | .prim s => [s]
+  | .elem _ attrs kids => attrs.flatMap attrStrings ++ vKidsStrings kids
+  | .seq ks => vKidsStrings ks
+  | .vec ks => vKidsStrings ks
+  | .unit => []
+def vKidsStrings : List VNode → List Str
+  | [] => []
+  | n :: ns => vStrings n ++ vKidsStrings ns
+end
+
+mutual
+def vHasInnerHtml : VNode → Bool
+  | .elem _ attrs kids => innerBuf attrs != [] || vHasInnerHtmlKids kids
+  | .seq ks => vHasInnerHtmlKids ks
+  | .vec ks => vHasInnerHtmlKids ks
+  | _ => false
+def vHasInnerHtmlKids : List VNode → Bool
+  | [] => false
+  | n :: ns => vHasInnerHtml n || vHasInnerHtmlKids ns
+end
 
 end Leptos.Html
